@@ -183,6 +183,52 @@ def run(lane, nlanes, limit=None):
     sh(f"git -C {repo} checkout -- .")
 
 
+def stage2(lane, nlanes):
+    """Survivors of stage 1 against ALL twenty quick checks."""
+    lane, nlanes = int(lane), int(nlanes)
+    rs = [json.loads(l) for l in open(f"{OUT}/results.jsonl")]
+    surv = [r for r in rs if r["verdict"] == "survived"]
+    done = set()
+    p2 = f"{OUT}/results_stage2.jsonl"
+    if os.path.exists(p2):
+        done = {json.loads(l)["id"] for l in open(p2)}
+    base = f"{LANES}/lane{lane}"
+    repo = f"{base}/repo"
+    env = dict(os.environ, VERIF_REPO=repo, VERIF_ALT_TARGET=f"{base}/target", VERIF_ALT_OUT=f"{base}/out")
+    allc = [f"C{i:02d}" for i in range(1, 21)]
+    for i, m in enumerate(surv):
+        if i % nlanes != lane or m["id"] in done:
+            continue
+        sh(f"git -C {repo} checkout -- .")
+        path = f"{repo}/{m['file']}"
+        lines = open(path).read().split("\n")
+        if lines[m["line"] - 1] != m["old"]:
+            continue
+        lines[m["line"] - 1] = m["new"]
+        open(path, "w").write("\n".join(lines))
+        verdict, detail = "survived-all", {}
+        for c in [c for c in allc if c not in m["props"]]:
+            r = subprocess.run(f"cd {ROOT} && timeout 900 ./check {c} --tier quick", shell=True, capture_output=True, text=True, env=env)
+            detail[c] = r.returncode
+            if r.returncode == 1:
+                verdict = "killed-by-other"
+                detail[c + ":keys"] = [l.strip() for l in r.stdout.splitlines() if l.strip().startswith("key:")][:2]
+                break
+            if r.returncode not in (0, 1):
+                verdict = "machinery"
+                detail[c + ":stderr"] = (r.stderr or r.stdout)[-300:]
+                break
+        # does the repository's own suite kill it?
+        crate = m["file"].split("/")[1]
+        t = subprocess.run(f"cd {repo} && CARGO_TARGET_DIR={base}/target-tests cargo test --offline -p {crate} 2>&1 | grep -E '^test result|FAILED' | head -5", shell=True, capture_output=True, text=True)
+        suite = "fails" if "FAILED" in t.stdout or " failed;" in t.stdout and "0 failed" not in t.stdout else "passes"
+        rec = dict(m, verdict=verdict, detail=detail, suite=suite)
+        with open(p2, "a") as fh:
+            fh.write(json.dumps(rec) + "\n")
+        print(lane, m["id"], m["file"].split("/")[-1], m["line"], verdict, "suite", suite, flush=True)
+    sh(f"git -C {repo} checkout -- .")
+
+
 def report():
     rs = [json.loads(l) for l in open(f"{OUT}/results.jsonl")]
     by = {}
@@ -199,5 +245,7 @@ if __name__ == "__main__":
         gen()
     elif cmd == "run":
         run(*sys.argv[2:])
+    elif cmd == "stage2":
+        stage2(*sys.argv[2:])
     elif cmd == "report":
         report()
